@@ -1,6 +1,6 @@
 #!/bin/sh
 # usage: goal.sh <file.v relative to coq/> <line>  -- show goals just before <line>
-cd /verif/coq
+cd "$(dirname "$0")/../coq"
 f=$1; n=$2
 tmp=$(dirname $f)/_dbg_$(basename $f)
 head -n $((n-1)) $f > $tmp
